@@ -9,6 +9,7 @@ pub mod c06;
 pub mod c07;
 pub mod c08;
 pub mod c09;
+pub mod c10;
 pub mod c11;
 
 /// build the prepared job for a spec (runs compile + calibration); None = nothing to run
@@ -19,6 +20,7 @@ pub fn make(spec: &JobSpec, ex: &mut Executor, out: &mut JobResult) -> Option<Bo
         "C07" => c07::make(spec, ex, out),
         "C08" => c08::make(spec, ex, out),
         "C09" => c09::make(spec, ex, out),
+        "C10" => c10::make(spec, ex, out),
         "C11" => c11::make(spec, ex, out),
         other => {
             out.notes.push(format!("unknown check {other}"));
